@@ -40,7 +40,7 @@ func (c07) Components() map[string]string {
 
 func (c07) Budget(tier string) int {
 	if tier == "thorough" {
-		return 100000
+		return 60000
 	}
 	return 2400
 }
